@@ -255,17 +255,6 @@ func ruleR4_2(w *World, r *Report) {
 	}
 	viol := map[string]bool{}
 	softPaths, hardPaths := 0, 0
-	appendedInt := func(st *pstate, v ssa.Value) (elem ssa.Value, ok bool) {
-		c, isCall := st.resolve(v).(*ssa.Call)
-		if !isCall {
-			return nil, false
-		}
-		if b, isB := c.Call.Value.(*ssa.Builtin); !isB || b.Name() != "append" {
-			return nil, false
-		}
-		e := appendedElem(c)
-		return e, e != nil
-	}
 	start := header
 	pairs, trunc := explore(start, &pstate{phi: map[*ssa.Phi]ssa.Value{}, facts: map[string]string{}}, func(b *ssa.BasicBlock) bool { return false }, func(ins ssa.Instruction, st *pstate) {
 		if ins == ssa.Instruction(header.Instrs[0]) {
@@ -298,35 +287,39 @@ func ruleR4_2(w *World, r *Report) {
 		if _, ok := isFieldLoad(degree, "maxsat.Constr", "AtLeast"); !ok {
 			viol["the degree passed on is not the constraint's AtLeast"] = true
 		}
-		if e, ok := appendedInt(st, lits); !ok {
-			viol["soft path without a blocking literal appended to the literals"] = true
-		} else {
-			// the blocking literal is a fresh index: len of the variable table after it was extended
-			if c, ok := e.(*ssa.Call); !ok || !isLenOf(c, func(x ssa.Value) bool { _, ok := isFieldLoad(x, "maxsat.Problem", "varInts"); return ok }) {
-				viol["the literal appended on the soft path is not a fresh variable index (len of the variable table)"] = true
-			}
-		}
-		switch st.nilness(coeffs) {
-		case 1:
-			ok1 := false
-			for k, v := range st.facts {
-				if strings.HasPrefix(k, "load:") && strings.HasSuffix(k, ".AtLeast") && v == "=1" {
-					ok1 = true
+		// the relaxation may live in a helper returning the new literals and coefficients: judge its return paths
+		if lx, ok := st.resolve(lits).(*ssa.Extract); ok {
+			if hc, ok := lx.Tuple.(*ssa.Call); ok {
+				g := hc.Call.StaticCallee()
+				cx, okc := st.resolve(coeffs).(*ssa.Extract)
+				if g != nil && len(g.Blocks) > 0 && okc && cx.Tuple == lx.Tuple && w.PkgName(g) == "maxsat" {
+					init := &pstate{phi: map[*ssa.Phi]ssa.Value{}, facts: map[string]string{}}
+					for i, p := range g.Params {
+						if i >= len(hc.Call.Args) {
+							break
+						}
+						switch st.nilness(hc.Call.Args[i]) {
+						case 1:
+							init.facts[init.vkey(p)] = "=nil"
+						case 2:
+							init.facts[init.vkey(p)] = "!=nil"
+						}
+					}
+					_, tr := explore(g.Blocks[0], init, nil, func(i2 ssa.Instruction, st2 *pstate) {
+						ret, isRet := i2.(*ssa.Return)
+						if !isRet || lx.Index >= len(ret.Results) || cx.Index >= len(ret.Results) {
+							return
+						}
+						judgeRelaxed(st2, ret.Results[lx.Index], ret.Results[cx.Index], viol)
+					})
+					if tr {
+						viol["state space of the relaxation helper too large"] = true
+					}
+					return
 				}
 			}
-			if !ok1 {
-				viol["soft constraint with implicit unit coefficients and a degree that may differ from 1: the blocking literal gets coefficient 1 and cannot satisfy the relaxed constraint alone"] = true
-			}
-		case 2:
-			e, ok := appendedInt(st, coeffs)
-			if !ok {
-				viol["soft path with explicit coefficients but none appended for the blocking literal"] = true
-			} else if _, ok := isFieldLoad(e, "maxsat.Constr", "AtLeast"); !ok {
-				viol["the coefficient appended for the blocking literal is not the constraint's AtLeast"] = true
-			}
-		default:
-			viol["cannot decide whether the coefficients are nil on a soft path"] = true
 		}
+		judgeRelaxed(st, lits, coeffs, viol)
 	})
 	if trunc {
 		r.Unk("R4.2", key, w.InstrPos(build), "state space too large")
@@ -343,6 +336,61 @@ func ruleR4_2(w *World, r *Report) {
 		r.Bad("R4.2", key, w.InstrPos(build), strings.Join(sortedStrings(ms), "; "))
 	} else {
 		r.OK("R4.2", key, w.InstrPos(build), fmt.Sprintf("%d (block,state) pairs; %d soft and %d hard path states reach the construction", pairs, softPaths, hardPaths))
+	}
+}
+
+// judgeRelaxed checks, in path state st, the literals and coefficients of a soft constraint after relaxation.
+func judgeRelaxed(st *pstate, lits, coeffs ssa.Value, viol map[string]bool) {
+	appendedInt := func(v ssa.Value) (elem ssa.Value, ok bool) {
+		c, isCall := st.resolve(v).(*ssa.Call)
+		if !isCall {
+			return nil, false
+		}
+		if b, isB := c.Call.Value.(*ssa.Builtin); !isB || b.Name() != "append" {
+			return nil, false
+		}
+		e := appendedElem(c)
+		return e, e != nil
+	}
+	isAtLeast := func(e ssa.Value) bool {
+		if _, ok := isFieldLoad(e, "maxsat.Constr", "AtLeast"); ok {
+			return true
+		}
+		if f, ok := e.(*ssa.Field); ok {
+			if o, name, _, okF := fieldOf(f); okF && o == "maxsat.Constr" && name == "AtLeast" {
+				return true
+			}
+		}
+		return false
+	}
+	if e, ok := appendedInt(lits); !ok {
+		viol["soft path without a blocking literal appended to the literals"] = true
+	} else {
+		// the blocking literal is a fresh index: len of the variable table after it was extended
+		if c, ok := e.(*ssa.Call); !ok || !isLenOf(c, func(x ssa.Value) bool { _, ok := isFieldLoad(x, "maxsat.Problem", "varInts"); return ok }) {
+			viol["the literal appended on the soft path is not a fresh variable index (len of the variable table)"] = true
+		}
+	}
+	switch st.nilness(coeffs) {
+	case 1:
+		ok1 := false
+		for k, v := range st.facts {
+			if strings.HasPrefix(k, "load:") && strings.HasSuffix(k, ".AtLeast") && v == "=1" {
+				ok1 = true
+			}
+		}
+		if !ok1 {
+			viol["soft constraint with implicit unit coefficients and a degree that may differ from 1: the blocking literal gets coefficient 1 and cannot satisfy the relaxed constraint alone"] = true
+		}
+	case 2:
+		e, ok := appendedInt(coeffs)
+		if !ok {
+			viol["soft path with explicit coefficients but none appended for the blocking literal"] = true
+		} else if !isAtLeast(e) {
+			viol["the coefficient appended for the blocking literal is not the constraint's AtLeast"] = true
+		}
+	default:
+		viol["cannot decide whether the coefficients are nil on a soft path"] = true
 	}
 }
 
